@@ -23,7 +23,7 @@ Mirrors, stage by stage,
   survey (always the absolute path with a space on either side, survey.py 1177-1195).
 
 Python dicts are insertion-ordered association lists.  Outside the fragment (`unsupported`, said by
-the model itself): non-ASCII headers, `parameters`, `audit`, loops, osm, table-list, external
+the model itself): non-ASCII headers, `audit`, loops, osm, external
 selects, `save_to`, background-geopoint, references to anything but a top-level question,
 `last-saved#`, names that are not unique in the form, bind cells nested deeper than
 `bind::attr::lang`, headers whose shape contradicts their slot (F14 class).
@@ -219,6 +219,7 @@ structure PRow where
   appearance : Option Str := none
   choiceFilter : Bool := false
   hasLabel : Bool := false
+  hasHint : Bool := false
   /-- the row's `bind` dict; `none` = the row has no `bind` key -/
   bind : Option BindDict := none
   /-- number of keys other than `disabled` -/
@@ -239,6 +240,7 @@ def stepScalar (r0 : PRow) (k v : Str) : Except String PRow :=
   else if k = "default".toList then .ok { r with default_ := some v }
   else if k = "choice_filter".toList then .ok { r with choiceFilter := true }
   else if k = "label".toList then .ok { r with hasLabel := true }
+  else if k = "hint".toList then .ok { r with hasHint := true }
   else if k = "bind".toList || k = "control".toList then .error "plain bind/control column (F14 class)"
   else .ok r
 
@@ -265,6 +267,7 @@ def stepOther (r0 : PRow) (k a : Str) (rest : List Str) (v : Str) : Except Strin
     else .ok r
   else if scalarSlots.contains k then .error "grouped header on a scalar column (F14 class)"
   else if k = "label".toList then .ok { r with hasLabel := true }
+  else if k = "hint".toList then .ok { r with hasHint := true }
   else .ok r
 
 def stepTokens (dl : Str) (r : PRow) (v : Str) : List Str → Except String PRow
@@ -443,92 +446,121 @@ def badSelectType : Option BindDict → Bool
 
 def selectTags : List String := ["select", "select1", "odk:rank"]
 
-def classifyNamed (lists : List Str) (r : PRow) (ps : List (Str × Str)) (t name : Str) : RK :=
+/-- the `table_list` variable of the row loop (xls2json.py 532-534): `None`, `True`, or the list
+    name of the first select seen in a table-list group -/
+inductive TL where
+  | off
+  | armed
+  | list (ln : Str)
+deriving DecidableEq, Repr, Inhabited
+
+def isTableList (r : PRow) : Bool :=
+  match r.appearance with
+  | some a => (splitWs a).contains "table-list".toList
+  | none => false
+
+/-- rows with a valid name that are not `end` rows: the RKs they contribute (a table-list `begin`
+    row also contributes the generated label note as first child; the first select of a table-list
+    group also contributes the generated label-only header select before itself) and the new
+    `table_list` state -/
+def classifyNamed (lists : List Str) (n : Nat) (tl : TL) (r : PRow) (ps : List (Str × Str)) (t name : Str) :
+    List RK × TL :=
   if (match r.bind with | some b => (lookup "entities:saveto".toList b).isSome | none => false) then
-    .unsupported "save_to"
+    ([.unsupported "save_to"], tl)
   else
   match Rows.matchControl "begin" true t with
   | some c =>
     (match Rows.ctlOf c with
-     | some .loop => .unsupported "loop"
-     | none => .unsupported "control type"
+     | some .loop => ([.unsupported "loop"], tl)
+     | none => ([.unsupported "control type"], tl)
      | some ct =>
-       if (match r.appearance with
-           | some a => (splitWs a).contains "table-list".toList | none => false) then .unsupported "table-list"
-       else
        let pre : List Q := match r.count with
          | some e =>
            if Rows.isPyxformRef e then []
            else [{ name := name ++ "_count".toList, tt := typeBind "calculate".toList,
                    bind := some [("readonly".toList, .s "true()".toList), ("calculate".toList, .s e)] }]
          | none => []
-       .begin_ (ct == .rep) pre { name, tt := none, bind := r.bind })
+       let note : List RK :=
+         if isTableList r && (r.hasLabel || r.hasHint) then
+           [.qs [{ name := "generated_table_list_label_".toList ++ Rows.natToStr n,
+                   tt := typeBind "note".toList, bind := none }]]
+         else []
+       (.begin_ (ct == .rep) pre { name, tt := none, bind := r.bind } :: note,
+        if isTableList r then .armed else tl))
   | none =>
   match Rows.matchSelect t with
   | some (sel, ln, other) =>
-    if r.parameters.isSome then .unsupported "select with parameters"
-    else if sel = "select one external".toList then .unsupported "select_one_external"
-    else if (splitOnChar '.' ln).length > 1 || isInfix "${".toList ln then .unsupported "select from file / repeat"
-    else if !lists.contains ln then .unsupported "list not in choices"
-    else if other && r.choiceFilter then .unsupported "or_other with choice_filter"
-    else if badSelectType r.bind then .unsupported "select with a bind type other than string / odk:rank"
+    if r.parameters.isSome then ([.unsupported "select with parameters"], tl)
+    else if sel = "select one external".toList then ([.unsupported "select_one_external"], tl)
+    else if (splitOnChar '.' ln).length > 1 || isInfix "${".toList ln then ([.unsupported "select from file / repeat"], tl)
+    else if !lists.contains ln then ([.unsupported "list not in choices"], tl)
+    else if other && r.choiceFilter then ([.unsupported "or_other with choice_filter"], tl)
+    else if badSelectType r.bind then ([.unsupported "select with a bind type other than string / odk:rank"], tl)
+    else if tl = .armed && r.choiceFilter then ([.unsupported "choice filter in a table-list"], tl)
+    else if (match tl with | .list l0 => !(l0 == ln) | _ => false) then ([.unsupported "table-list list names differ"], tl)
     else
       let q : Q := { name, tt := typeBind sel, bind := r.bind, trig := r.trigger, visible := r.hasLabel }
       let o : List Q := if other then
         [{ name := name ++ "_other".toList, tt := typeBind "text".toList,
            bind := some [("relevant".toList,
              .s ("selected(../".toList ++ name ++ ", 'other')".toList))] }] else []
-      .qs (q :: o)
+      -- the label-only header of a table-list (xls2json.py 1163-1184): no bind dict of its own
+      let hdr : List Q := if tl = .armed then
+        [{ name := "reserved_name_for_field_list_labels_".toList ++ Rows.natToStr n, tt := typeBind sel, bind := none }]
+        else []
+      ([.qs (hdr ++ q :: o)], if tl = .off then .off else .list ln)
   | none =>
-  if isInfix "osm".toList t then .unsupported "osm"
-  else if t = "background-geopoint".toList then .unsupported "background-geopoint"
-  else if t = "xml-external".toList || t = "csv-external".toList then .unsupported "external instance row"
+  if isInfix "osm".toList t then ([.unsupported "osm"], tl)
+  else if t = "background-geopoint".toList then ([.unsupported "background-geopoint"], tl)
+  else if t = "xml-external".toList || t = "csv-external".toList then ([.unsupported "external instance row"], tl)
   else
   match Rows.typeEntry t with
-  | none => .unsupported "unknown type"
+  | none => ([.unsupported "unknown type"], tl)
   | some e =>
     if (match Rows.entryGet e "control" "tag" with | some tag => selectTags.contains tag | none => false) then
-      .unsupported "select type without list"
+      ([.unsupported "select type without list"], tl)
     else
     match paramBind t ps with
-    | .error w => .unsupported w
+    | .error w => ([.unsupported w], tl)
     | .ok upd =>
       let tag := (Rows.entryGet e "control" "tag").getD ""
-      .qs [{ name, tt := typeBind t, bind := withParamBind r.bind upd, trig := r.trigger,
-             visible := t ≠ "calculate".toList && r.hasLabel && Rows.tagHasControl tag }]
+      ([.qs [{ name, tt := typeBind t, bind := withParamBind r.bind upd, trig := r.trigger,
+                visible := t ≠ "calculate".toList && r.hasLabel && Rows.tagHasControl tag }]], tl)
 
-/-- one processed row (number `n`, header row = 1) through the row loop of `workbook_to_json` -/
-def classify (lists : List Str) (n : Nat) (r : PRow) : RK :=
-  if (match r.disabled with | some v => Rows.yesNoTrue v | none => false) then .skip
-  else if r.keys = 0 then .skip
+/-- one processed row (number `n`, header row = 1) through the row loop of `workbook_to_json`:
+    the RKs it contributes and the new `table_list` state (every `end` row resets it) -/
+def classify (lists : List Str) (n : Nat) (tl : TL) (r : PRow) : List RK × TL :=
+  if (match r.disabled with | some v => Rows.yesNoTrue v | none => false) then ([.skip], tl)
+  else if r.keys = 0 then ([.skip], tl)
   else
   match r.type with
-  | none => if r.name.isSome || r.hasLabel then .unsupported "row without type" else .skip
+  | none => if r.name.isSome || r.hasLabel then ([.unsupported "row without type"], tl) else ([.skip], tl)
   | some t0 =>
     let t := dealiasType t0
     let psO : Option (List (Str × Str)) := match r.parameters with
       | some p => if isAscii p then parseParams p else none
       | none => some []
     match psO with
-    | none => .unsupported "parameters cell not of the form key=value"
+    | none => ([.unsupported "parameters cell not of the form key=value"], tl)
     | some ps =>
-    if t = "audit".toList then .unsupported "audit"
+    if t = "audit".toList then ([.unsupported "audit"], tl)
     else if t = "calculate".toList &&
         !(match r.bind with | some b => (lookup "calculate".toList b).isSome | none => false) then
-      .unsupported "calculate without calculation"
-    else if Rows.settingsTypes.contains t then .skip
+      ([.unsupported "calculate without calculation"], tl)
+    else if Rows.settingsTypes.contains t then ([.skip], tl)
     else
     match Rows.matchControl "end" false t with
     | some c =>
       (match Rows.ctlOf c with
-       | some .group => .end_ false
-       | some .rep => .end_ true
-       | _ => .unsupported "control type")
+       | some .group => ([.end_ false], .off)
+       | some .rep => ([.end_ true], .off)
+       | _ => ([.unsupported "control type"], tl))
     | none =>
     match Rows.nameOrErr [] t n, r.name with
-    | _, some nm => if Rows.isXmlTag nm then classifyNamed lists r ps t nm else .unsupported "invalid name"
-    | .ok gen, none => classifyNamed lists r ps t gen
-    | .error _, none => .unsupported "no name"
+    | _, some nm =>
+      if Rows.isXmlTag nm then classifyNamed lists n tl r ps t nm else ([.unsupported "invalid name"], tl)
+    | .ok gen, none => classifyNamed lists n tl r ps t gen
+    | .error _, none => ([.unsupported "no name"], tl)
 
 /-- a positioned element -/
 structure Elem where
@@ -683,19 +715,31 @@ def renderAll (root : Str) (tops : List Str) : List Elem → Option (List Bind)
 
 /-! ## whole form -/
 
+def firstUnsupported : List RK → Option String
+  | [] => none
+  | .unsupported w :: _ => some w
+  | _ :: rest => firstUnsupported rest
+
+/-- one raw row (number `n`, `table_list` state `tl`) ↦ the RKs it contributes and the new state -/
+def rowRKs (dl : Str) (key : List (Str × List Str)) (lists : List Str) (n : Nat) (tl : TL)
+    (cells : List (Str × Str)) : Except String (List RK × TL) :=
+  match processRow dl key {} cells with
+  | .error e => .error e
+  | .ok r =>
+    match firstUnsupported (classify lists n tl r).1 with
+    | some w => .error w
+    | none => .ok (classify lists n tl r)
+
 def processRows (dl : Str) (key : List (Str × List Str)) (lists : List Str) :
-    Nat → List (List (Str × Str)) → Except String (List RK)
-  | _, [] => .ok []
-  | n, cells :: rest =>
-    match processRow dl key {} cells with
+    Nat → TL → List (List (Str × Str)) → Except String (List RK)
+  | _, _, [] => .ok []
+  | n, tl, cells :: rest =>
+    match rowRKs dl key lists n tl cells with
     | .error e => .error e
-    | .ok r =>
-      match classify lists n r with
-      | .unsupported w => .error w
-      | k =>
-        match processRows dl key lists (n + 1) rest with
-        | .ok ks => .ok (k :: ks)
-        | .error e => .error e
+    | .ok (ks0, tl') =>
+      match processRows dl key lists (n + 1) tl' rest with
+      | .ok ks => .ok (ks0 ++ ks)
+      | .error e => .error e
 
 def rkNames : RK → List Str
   | .qs l => l.map (·.name)
@@ -754,7 +798,7 @@ def formBinds (root dl : Str) (lists : List Str) (headers : List Str) (rows : Li
   | .error (.unsupported w) => .unsupported w
   | .ok key =>
     if !(key.any fun kt => kt.2.head? = some "type".toList) then .unsupported "no type column" else
-    match processRows dl key lists 2 rows with
+    match processRows dl key lists 2 .off rows with
     | .error w => .unsupported w
     | .ok ks => bindsOfRows root ks
 
